@@ -10,7 +10,7 @@ use std::collections::BTreeSet;
 
 pub fn test(reg: &Reg, case: &Case, stats: Option<&mut Stats>) -> Verdict {
     let e = &reg.entries[case.ty];
-    if case.payload.has_dup_keys() || case.payload.has_nonfinite() {
+    if case.payload.has_dup_keys() {
         return Verdict::Ok;
     }
     let src = src_for(case);
@@ -73,11 +73,11 @@ pub fn test(reg: &Reg, case: &Case, stats: Option<&mut Stats>) -> Verdict {
 
 pub fn run(tier: Tier) -> i32 {
     let reg = registry();
-    let gen = case_gen(reg.clone(), reg.modelled_idx(), GenOpts { blind: 0.04, min_fault: 0.06, ..GenOpts::default() });
+    let gen = case_gen(reg.clone(), reg.modelled_idx(), GenOpts { blind: 0.04, min_fault: 0.06, nonfinite: true, ..GenOpts::default() });
     drive(
         "C02",
         tier,
-        "cases = (modelled catalogue type incl. generated derive inputs, type-directed payload biased to >= 2 faults placed before/after/inside each other, no duplicate keys, both sources), all-Continue script; \
+        "cases = (modelled catalogue type incl. generated derive inputs, type-directed payload biased to >= 2 faults placed before/after/inside each other, no duplicate keys, both sources; non-finite floats through OV), all-Continue script; \
          oracle: multiset of observed reports (kind, location, structured content / message matcher) == multiset predicted by the reference interpreter of the documented semantics, the reports held by the RETURNED error (by id) are the same multiset, and every payload node the interpreter says must be examined was examined (OV); \
          non-trivial = >= 2 predicted reports at >= 2 locations, or a structural fault next to other faults; distinct by (type, payload)",
         (2_000_000, 30_000_000),
